@@ -25,5 +25,7 @@ func init() {
 		{Name: "parent fingerprint memoised and shared with the children (seed C18-r2b)", Kill: true, Rule: "C18-OWN", File: "poc/wallet/keystore/hdkeychain/extendedkey.go",
 			Old: "\tparentFP := massutil.Hash160(k.pubKeyBytes())[:4]\n", New: "\tif len(k.parentFPMemo) == 0 {\n\t\tk.parentFPMemo = massutil.Hash160(k.pubKeyBytes())[:4]\n\t}\n\tparentFP := k.parentFPMemo\n",
 			File2: "poc/wallet/keystore/hdkeychain/extendedkey.go", Old2: "\tpubKey    []byte // This will only be set for extended priv keys\n", New2: "\tpubKey    []byte // This will only be set for extended priv keys\n\tparentFPMemo []byte\n"},
+		{Name: "parent fingerprint computed into a local first", Kill: false, File: "poc/wallet/keystore/hdkeychain/extendedkey.go",
+			Old: "\tparentFP := massutil.Hash160(k.pubKeyBytes())[:4]\n", New: "\tfpFull := massutil.Hash160(k.pubKeyBytes())\n\tparentFP := fpFull[:4]\n"},
 	}
 }
